@@ -301,7 +301,11 @@ class matrix(object):
         if not isinstance(k, (int, float)): return NotImplemented
         r = matrix.__new__(matrix); r._ro = False
         r.typecode = matrix._res_tc(self.typecode, _tc_of(k))
-        r.v = [_conv(a, r.typecode) ** k for a in self.v]; r._size = self.size
+        if k == -1 and r.typecode == 'd':
+            r.v = [sdiv(1.0, _conv(a, 'd')) for a in self.v]
+        else:
+            r.v = [_conv(a, r.typecode) ** k for a in self.v]
+        r._size = self.size
         return r
     def _inplace(self, o, op):
         self._w()
